@@ -52,6 +52,10 @@ def gen_cases(ctx):
         xs = [fcorr.rand_double(r, "m") for _ in range(r.choice([1, 3, 10, 40]))]
         if k % 4 == 0:
             xs = [xs[0]] * len(xs)
+        if k % 9 == 1:      # finite inputs at the edge of the range with alternating sign: the convex form must not overflow
+            big = r.choice([1.5e308, 1.0e308, 1.7e308])
+            xs = [(-big if j % 2 == 0 else big) * r.choice([1.0, 0.99]) for j in range(len(xs) + 1)]
+            alpha = r.choice([1.0, 0.5, alpha])
         for nm in ("lpf", "hpf"):
             cl = nm + " " + " ".join(fcorr.argbits(v) for v in [alpha] + xs)
             ce = ("lpf_run F64_ops %s 0 %s" % (fcorr.coqf(alpha), fcorr.coq_list(xs)) if nm == "lpf" else
@@ -144,18 +148,25 @@ def run(ctx):
     if not ok:
         raise vlib.CheckError("model does not compile: %s" % failed)
     cases = gen_cases(ctx)
-    c_out = fcorr.run_c(cbin, [c[0] for c in cases])
+    crashes = []
+    c_out = fcorr.run_c(cbin, [c[0] for c in cases], crashes=crashes)
+    for idx, msg in crashes:
+        ctx.report("%s/sanitizer" % cases[idx][2][0], "the C aborted on this case: " + msg,
+                   {"case": cases[idx][0], "inputs": [repr(x) for x in cases[idx][2][1:]], "stderr": msg})
+    crashed = set(i for i, _ in crashes)
     m_out = fcorr.run_model(ctx, "c16cases", ["C16.FilterDefs"], [c[1] for c in cases])
     nd = 0
     kinds = {}
     for i, (cl, ce, meta) in enumerate(cases):
         kinds[meta[0]] = kinds.get(meta[0], 0) + 1
-        if c_out[i] != m_out[i]:
+        if i not in crashed and c_out[i] != m_out[i]:
             nd += 1
             if nd <= 3:
                 ctx.tie_broken("correspondence C16 (bit-exact binary64): case #%d %s: C %s, model %s" % (i, cl[:60], c_out[i][:8], m_out[i][:8]))
     nrep = 0
     for i, (cl, ce, meta) in enumerate(cases):
+        if i in crashed:
+            continue
         why = oracle(meta, [fcorr.fval(b) for b in c_out[i]])
         if why and nrep < 4:
             nrep += 1
